@@ -1544,9 +1544,9 @@ class SpaceManager(SharedSpaceOperations):
     def new_ref(self, space, name, value, refmode):
 
         for other in self._find_names_in_subs(space, name):
+            # A reference of the same name in a sub space is fine:
+            # it overrides, or is re-derived below
             if not isinstance(other, ReferenceImpl):
-                raise ValueError("Cannot create reference '%s'" % name)
-            elif other not in self.model.global_refs.values():
                 raise ValueError("Cannot create reference '%s'" % name)
 
         self._check_subs_relrefs(space, name, value, refmode)
@@ -1560,6 +1560,13 @@ class SpaceManager(SharedSpaceOperations):
             is_relative = False
             subvalue = value
             if name in subspace.own_refs:
+                subref = subspace.own_refs[name]
+                if subref.is_derived():
+                    # The new reference may be the nearest definition now
+                    subspace.clear_subs_rootitems()
+                    subref.on_inherit(
+                        self,
+                        self.get_deriv_bases(subref, defined_only=True))
                 continue
             if isinstance(value, Interface) and value._is_valid():
                 if refmode == "auto" or refmode == "relative":
